@@ -42,6 +42,9 @@ func genName(r *hx.Rand) string {
 		name += "/" + hx.Pick(r, []string{"p=1", "p=2", "q=1", "q=x", "gomaxprocs=4", "z", "p=", "r=7",
 			// dashes inside values and non-numeric dash tails (only a trailing -digits is GOMAXPROCS)
 			"p=en-US", "p=en-GB", "q=1-2", "q=a-b-c", "p=-", "r=7-x", "z-9",
+			// keys that have a projected key (/p, /q) as a proper prefix, and positional parts beginning
+			// like one: excluding /p must not touch /pq, /p2 or /px
+			"pq=5", "pq=6", "p2=1", "p2=2", "px", "qq=x", "qq=y", "q2", "pp=1",
 			// '=' inside values: the key of a part ends at its FIRST '='
 			"p=v=w", "p=a==b", "q=QUJDRA==", "p=-l=4", "q==", "p==x", "gomaxprocs=a=b",
 			// blanks in name values (API-built results)
